@@ -113,3 +113,26 @@ def report(rep, specs, results, select, sigmap=None, label='write path'):
             rep.violation(nm, sig, 'fails in "%s"; history %s on config %s' % (sp['name'], real[1], real[0]),
                           replay_body=wrun.REPLAY_BODY % (real[0], real[1]), bounds=sp['name'], sample={'config': real[0], 'history': real[1]})
     return tot
+
+
+def reject_specs(tier, modes=MODES):
+    """zero or one valid call followed by ONE arbitrary call (block arrays not assumed well formed), fresh channel"""
+    S = []
+    def add(name, cont, chunk, calls, cost=1, **kw):
+        kw.setdefault('checker', 'reject')
+        S.append(dict(name=name, n=1, d=1, sc=1, fc=1000, cont=cont, chunk=chunk, calls=calls, cost=cost, **kw))
+    arb = lambda L, mf=2, **kw: call(L, mf, valid=False, minv=1, **kw)
+    for mname, cont, chunk in modes:
+        add('%s: arbitrary 1-block call on a fresh writer' % mname, cont, chunk, [arb(1)], 1)
+        add('%s: arbitrary 2-block call on a fresh writer' % mname, cont, chunk, [arb(2)], 3)
+        add('%s: valid call, then arbitrary 1-block call' % mname, cont, chunk, [call(1, 2), arb(1)], 4)
+        add('%s: valid call, then arbitrary 2-block call' % mname, cont, chunk, [call(1, 2), arb(2)], 10)
+        add('%s: valid call, then NULL data pointer' % mname, cont, chunk, [call(1, 2), arb(1, null_vector=True)], 2)
+        add('%s: C API digital_rf_write_hdf5: valid call then arbitrary index' % mname, cont, chunk, [call(1, 2), arb(1)], 4, api='single')
+        add('%s: valid call, then zero-length call with arbitrary arrays' % mname, cont, chunk, [call(1, 2), call(2 if not cont else 1, 2, valid=False, minv=0, maxv=0)], 2,
+            checker='zero')
+        if tier == 'thorough':
+            add('%s: arbitrary 3-block call on a fresh writer' % mname, cont, chunk, [arb(3)], 20)
+            add('%s: valid 2-block call, then arbitrary 2-block call' % mname, cont, chunk, [call(2 if not cont else 1, 2), arb(2)], 40)
+            add('%s: valid, valid, arbitrary 1-block' % mname, cont, chunk, [call(1, 2), call(1, 2), arb(1)], 40)
+    return S
